@@ -101,7 +101,7 @@ thread_local! {
 }
 
 thread_local! {
-    static MATCHES: std::cell::RefCell<String> = const { std::cell::RefCell::new(String::new()) };
+    static MATCHES: std::cell::RefCell<Vec<(usize, Vec<usize>)>> = const { std::cell::RefCell::new(Vec::new()) };
 }
 
 /// Forget match lists left over from a run that did not reach `record_raw` (a panic).
@@ -109,16 +109,10 @@ pub fn reset_matches() {
     MATCHES.with(|m| m.borrow_mut().clear());
 }
 
-/// The leaves matching in one DFA state, as `get_state_type` sees them (line RMATCH, emitted with the raw graph).
+/// The leaves matching in one DFA state, as `get_state_type` sees them (line RMATCH, emitted with the raw
+/// graph in state order: the construction loop visits the states in hash-map order).
 pub fn record_matches(state: usize, leaves: Vec<usize>) {
-    MATCHES.with(|m| {
-        let mut m = m.borrow_mut();
-        write!(m, "RMATCH {}", state).unwrap();
-        for l in leaves {
-            write!(m, " {}", l).unwrap();
-        }
-        m.push('\n');
-    });
+    MATCHES.with(|m| m.borrow_mut().push((state, leaves)));
 }
 
 /// The graph as built from the DFA, before the early-accept / late-accept / pruning / de-duplication
@@ -144,7 +138,15 @@ pub fn record_raw(graph: &Graph) {
             out.push('\n');
         }
     }
-    out.push_str(&MATCHES.with(|m| std::mem::take(&mut *m.borrow_mut())));
+    let mut matches = MATCHES.with(|m| std::mem::take(&mut *m.borrow_mut()));
+    matches.sort();
+    for (state, leaves) in matches {
+        write!(out, "RMATCH {}", state).unwrap();
+        for l in leaves {
+            write!(out, " {}", l).unwrap();
+        }
+        out.push('\n');
+    }
     RAW.with(|r| *r.borrow_mut() = out);
 }
 
